@@ -175,6 +175,9 @@ func genC03(c *Ctx) any {
 		// few columns, few values: more accidental structure among related queries
 		cs.Data.Spec.Cols = []ColSpec{{Name: "a", Card: r.Range(1, 3), Shape: "uniform", Kind: "num"}, {Name: "b", Card: r.Range(1, 3), Shape: "uniform", Kind: "num", Missing: []int{0, 300}[r.Intn(2)]}}
 	}
+	if r.Chance(1, 5) {
+		cs.Data.Spec.WeirdNames(r)
+	}
 	cs.Open = genOpenCfg(c.Rand("open"), true)
 	cs.Open.ViaDB = false
 	if r.Chance(1, 4) {
